@@ -12,7 +12,7 @@ PROP = 'C12'
 C_EPS = 10.0
 COND_MAX = 1e3
 RULE = ('cases = amen_solve(A,b,eps,...) (python backend, default nswp) on systems generated with a CERTIFIED conditioning bound (the dense matrix is formed by the harness and '
-        'cond_2 <= 1e3 is asserted before the case is admitted): SPD I + c*B^T B, diagonally dominant I + eps*B (non-symmetric), Kronecker-sum Laplacians (+shift); order 2..5, '
+        'cond_2 <= 1e3 is asserted before the case is admitted): SPD I + c*B^T B, diagonally dominant I + eps*B (non-symmetric), Kronecker-sum Laplacians (+shift), Kronecker-sum upwind convection-diffusion operators (non-symmetric tridiagonal; with and without the band_diagonal=1 option); order 2..5, '
         'mode sizes 2..12 (dense dimension <= 700), operator ranks 1..5, right-hand sides of rank 1..4 (random or A@x_true), eps log-uniform in [1e-10,1e-3]; configurations '
         '{preconditioner None,c,r} x {max_full 500, 0} x {local_solver 1 (GMRES), 2 (BiCGSTAB)} x {x0 None, random} x internal seeds. Oracle: shape; dense residual '
         '||A x - b|| <= 10*eps*||b||. The REACH tracer records which local solver actually ran in each execution (gmres_restart / BiCGSTAB_reset / direct, apply_prec) and a '
@@ -22,7 +22,7 @@ ASSUMPTIONS = ['"well conditioned" is made checkable as cond_2(A) <= 1e3 on the 
                'default nswp=22, kickrank=4, local_iterations=40, resets=2']
 REQUIRED_REACH = ['solvers:amen_solve', 'solvers:_amen_solve_python', '_iterative_solvers:gmres_restart', '_iterative_solvers:BiCGSTAB_reset', 'solvers:_LinearOp.apply_prec',
                   'solvers:_LinearOp.matvec', 'solvers:_local_product']
-REQUIRED_COUNTS = {'ran:gmres': 5, 'ran:bicgstab': 5, 'ran:direct': 5, 'ran:prec': 5, 'class:spd': 1, 'class:dd': 1, 'class:lap': 1, 'x0:user': 1, 'executions': 150}
+REQUIRED_COUNTS = {'ran:gmres': 5, 'ran:bicgstab': 5, 'ran:direct': 5, 'ran:prec': 5, 'class:spd': 1, 'class:dd': 1, 'class:lap': 1, 'class:cd': 1, 'option:band_diagonal': 5, 'x0:user': 1, 'executions': 150}
 LINE_FUNCS = ['_amen_solve_python', 'BiCGSTAB_reset', 'gmres', '_LinearOp.matvec']
 CASE_TIMEOUT = {'quick': 300, 'thorough': 600}
 MAX_TIMEOUT_FRACTION = 0.0
@@ -40,14 +40,14 @@ def cases(tier, seed):
     nstruct = 90 if not T else 500
     k = 2 if not T else 6
     for i in range(nstruct):
-        cls = ['spd', 'dd', 'lap'][i % 3]
+        cls = ['spd', 'dd', 'lap', 'cd'][i % 4]
         d = rng.choice([2, 2, 3, 3, 4, 5])
         while True:
             N = [rng.randint(2, 12 if d <= 3 else 5) for _ in range(d)]
             if dn.prod(N) <= 700:
                 break
         base = {'gen': 'solve', 'cls': cls, 'N': N, 'RB': gens.rank_profile(rng, d, 'rand', 2 if cls == 'spd' else 4), 'Rb': gens.rank_profile(rng, d, 'rand', 4),
-                'rhs': ['random', 'image'][(i // 3) % 2], 'cfac': 10 ** rng.uniform(-0.3, 2.0), 'shift': [0.0, 0.1][(i // 6) % 2], 'eps': 10 ** rng.uniform(-10, -3),
+                'rhs': ['random', 'image'][(i // 4) % 2], 'cfac': 10 ** rng.uniform(-0.3, 2.0), 'shift': [0.0, 0.1][(i // 8) % 2], 'band': 1 if (cls in ('lap', 'cd') and (i // 4) % 2 == 0) else -1, 'eps': 10 ** rng.uniform(-10, -3),
                 'vseed': rng.randrange(2 ** 40)}
         confs = []
         for prec in (None, 'c', 'r'):
@@ -78,12 +78,14 @@ def cases(tier, seed):
     return cs
 
 
-def laplace_tt(N, shift, dt):
+def laplace_tt(N, shift, dt, conv=0.0):
+    """Kronecker sum of 1-D operators tridiag(-1-conv, 2+conv, -1): Laplacian for conv=0, upwind convection-diffusion (non-symmetric,
+    diagonally dominant) otherwise."""
     import torchtt
     d = len(N)
     cores = []
     for k, n in enumerate(N):
-        L = 2 * torch.eye(n, dtype=dt) - torch.diag(torch.ones(n - 1, dtype=dt), 1) - torch.diag(torch.ones(n - 1, dtype=dt), -1)
+        L = (2 + conv) * torch.eye(n, dtype=dt) - torch.diag(torch.ones(n - 1, dtype=dt), 1) - (1 + conv) * torch.diag(torch.ones(n - 1, dtype=dt), -1)
         if k == 0:
             L = L + shift * torch.eye(n, dtype=dt)
         I = torch.eye(n, dtype=dt)
@@ -108,8 +110,8 @@ def build_system(case, ctx, g):
     N, cls = case['N'], case['cls']
     d = len(N)
     n = dn.prod(N)
-    if cls == 'lap':
-        A = laplace_tt(N, case['shift'], dt)
+    if cls in ('lap', 'cd'):
+        A = laplace_tt(N, case['shift'], dt, conv=(0.5 + (case['cfac'] % 1.0)) if cls == 'cd' else 0.0)
     else:
         B = gens.make_tt(N, case['RB'], dt, 'gauss', g, M=N)
         Bm = dn.D(B).reshape(n, n)
@@ -157,12 +159,15 @@ def run_case(case, ctx):
         ctx.count('x0:user')
     bvec = dn.D(b).reshape(n)
     nb = float(torch.linalg.norm(bvec))
-    conf = 'prec=%s/max_full=%d/local_solver=%d' % (case['prec'], case['max_full'], case['ls'])
+    conf = 'prec=%s/max_full=%d/local_solver=%d%s' % (case['prec'], case['max_full'], case['ls'], '/band_diagonal=%d' % case['band'] if case.get('band', -1) >= 0 else '')
     key = 'amen_solve/%s/%s' % (case['cls'], conf)
     what = 'amen_solve %s N=%s rA=%s rb=%s cond2=%.1f eps=%.2e %s x0=%s rhs=%s seed-index %d' % (case['cls'], N, [int(r) for r in A.R], [int(r) for r in b.R], cond, eps, conf, case['x0'], case['rhs'], case['sidx'])
     names = ['_iterative_solvers:gmres_restart', '_iterative_solvers:BiCGSTAB_reset', 'solvers:_LinearOp.apply_prec', 'solvers:_LinearOp.matvec']
     before = hooks.reach_counts(names)
     kw = dict(eps=eps, max_full=case['max_full'], local_solver=case['ls'], preconditioner=case['prec'], use_cpp=False)
+    if case.get('band', -1) >= 0:
+        kw['band_diagonal'] = case['band']      # the cores are tridiagonal: the documented band-structure option
+        ctx.count('option:band_diagonal')
     orig_rand = torch.rand
     calls = [0]
 
